@@ -1810,7 +1810,7 @@ static void exec_mpi(Plan const& p, Report& rep)
         UsageInfo const ui = s.w->usage();
         u64 const per_call = (p.dims + (p.integ == MULTI ? 1 : 0)) * ui.predicted;
 
-        for (u64 g = 0; g != 2; ++g)
+        for (u64 g = 0; g < 2; ++g)
         {
             // tiling inside the group (C16)
             u64 start = 0;
